@@ -668,6 +668,10 @@ func checkRestoreEvent(c *report.Ctx) {
 				for _, e := range an.Exits(f) {
 					ph, isPhi := an.Strip(e.Vals[len(e.Vals)-1], false).(*ssa.Phi)
 					if !isPhi {
+						// (the arm has its own return, handing back the error it just made)
+						if cl, _ := an.CallOf(an.Strip(e.Vals[len(e.Vals)-1], false)); cl != nil && oneOf(an.Callee(cl), "fmt.Errorf", "errors.New") && len(st.Block().Instrs) > 0 && len(e.Ret.Block().Instrs) > 0 && an.InstrDominates(st, e.Ret) && an.InstrDominates(cl, st) {
+							g = true
+						}
 						continue
 					}
 					for i, p := range ph.Block().Preds {
